@@ -111,8 +111,8 @@ PROPS = {
         "level_note": "Faults are explicit in the model (sticky fault field); tie = full white-box differential runs in the debug profile + panic/unsafe site audit. Real interleavings and the allocator are not modelled.",
     },
     "C03": {
-        "lean_modules": ["MiniMoka.Props.C03", "MiniMoka.Props.C03A", "MiniMoka.Props.C03ASync", "MiniMoka.Props.C03BSync", "MiniMoka.Props.NoFreq", "MiniMoka.Props.C03BTrace", "MiniMoka.Props.ConcSNoLoss", "MiniMoka.Props.ConcFMore", "MiniMoka.Props.ConcSRefill"],
-        "theorems": ["MiniMoka.Props.ConcS_C03B_after_any_phase", "MiniMoka.Props.ConcS_C03_refill_retained", "MiniMoka.Props.ConcS_C03_refill_counters",
+        "lean_modules": ["MiniMoka.Props.C03", "MiniMoka.Props.C03A", "MiniMoka.Props.C03ASync", "MiniMoka.Props.C03BSync", "MiniMoka.Props.NoFreq", "MiniMoka.Props.C03BTrace", "MiniMoka.Props.ConcSNoLoss", "MiniMoka.Props.ConcFMore", "MiniMoka.Props.ConcSRefill", "MiniMoka.Props.C03W"],
+        "theorems": ["MiniMoka.Props.C03B_sync_W", "MiniMoka.Props.C03B_sync_W_noFreq", "MiniMoka.Props.fitsC03SyncW_of_C10", "MiniMoka.Props.ConcS_C03B_after_any_phase", "MiniMoka.Props.ConcS_C03_refill_retained", "MiniMoka.Props.ConcS_C03_refill_counters",
                      "MiniMoka.Props.ConcS_reach_continuation", "MiniMoka.Props.ConcS_valid_after_le_now",
                      "MiniMoka.Props.ConcF_no_spurious_removal",
                      "MiniMoka.Props.ConcS_no_spurious_removal", "MiniMoka.Props.ConcS_insert_retained", "MiniMoka.Props.ConcS_insert_retained_path",
@@ -129,7 +129,7 @@ PROPS = {
         "audit_kinds": ["map_write", "counter", "time_write", "time_check"],
         "corpus": ["C03", "D3", "D4", "D6", "D7"],
         "assumptions": COMMON_ASSUME,
-        "level_text": "Oracle: a map-with-expiry reference is run beside every implementation trace; with no capacity (or a capacity the history never reaches) every lookup must return exactly what the reference requires (on the concurrent cache the idle extension of a get is owed only after the next sync); with bounded capacity every insert of a fresh key that fits in the room left by the physical residents must be retained and evict nothing. Proved on the single-threaded model for every configuration, hash, weigher and history: with no capacity, or a capacity the inserted weight never reaches, every get / contains_key / iteration returns exactly what the map-with-expiry reference requires (C03A_unsync, C03A_unsync_large_capacity, C03A_unsync_oracle: two-way coupling, soundness from C01 plus completeness: every entry the reference must hold is resident); with bounded capacity an insert that fits is retained and evicts no unexpired resident (C03B_unsync), and the purge removes only expired entries. Concurrent cache driven by one thread, proved for every configuration, history, placement of sync() and clock pattern: with no capacity, or a capacity the inserted weight never reaches, every lookup returns exactly what the reference requires, the idle extension of a get being owed once maintenance has applied it (C03A_sync, C03A_sync_large_capacity, C03A_sync_oracle: two-way coupling, completeness from 'maintenance removes an entry only if it is expired or invalidated, judged with every queued read applied'). Part B on the concurrent cache is proved as well (C03B_sync, hence the whole oracle: C03_sync_oracle): between two quiescent snapshots a fresh key, inserted once or several times before maintenance runs, keeps its latest value if that fits in the room the residents leave, and if every inserted value fits nothing unexpired is evicted (the accounted weight is that of the value the map holds now, so an earlier, heavier value never causes a rejection of the later one). Many threads, no capacity (model ConcS.lean, all interleavings): a step removes a map entry only if it is the invalidate of that key, or a maintenance run that finds it expired or hidden by the watermark; an inserted entry stays resident along every path that does not disturb it in one of these ways, whether or not its write op has been enqueued (ConcS_no_spurious_removal, ConcS_insert_retained, ConcS_insert_retained_path; ConcF_no_spurious_removal for the finest model, where the removing step is a single maintenance micro-step). The multi-threaded refill clause: real-thread component, stress only. The thread clause of the property is proved for the many-thread model: after ANY interleaving of ConcS that ends with nobody holding an operation, every single-threaded continuation satisfies the part-B oracle (ConcS_C03B_after_any_phase), and concretely the sequential refill — invalidate every resident, sync, then insert up to max_capacity fresh unit-weight keys with a sync after each — retains every one of them, with exact counters before and after (ConcS_C03_refill_retained, ConcS_C03_refill_counters).",
+        "level_text": "Oracle: a map-with-expiry reference is run beside every implementation trace; with no capacity (or a capacity the history never reaches) every lookup must return exactly what the reference requires (on the concurrent cache the idle extension of a get is owed only after the next sync); with bounded capacity every insert of a fresh key that fits in the room left by the physical residents must be retained and evict nothing. Proved on the single-threaded model for every configuration, hash, weigher and history: with no capacity, or a capacity the inserted weight never reaches, every get / contains_key / iteration returns exactly what the map-with-expiry reference requires (C03A_unsync, C03A_unsync_large_capacity, C03A_unsync_oracle: two-way coupling, soundness from C01 plus completeness: every entry the reference must hold is resident); with bounded capacity an insert that fits is retained and evicts no unexpired resident (C03B_unsync), and the purge removes only expired entries. Concurrent cache driven by one thread, proved for every configuration, history, placement of sync() and clock pattern: with no capacity, or a capacity the inserted weight never reaches, every lookup returns exactly what the reference requires, the idle extension of a get being owed once maintenance has applied it (C03A_sync, C03A_sync_large_capacity, C03A_sync_oracle: two-way coupling, completeness from 'maintenance removes an entry only if it is expired or invalidated, judged with every queued read applied'). Part B on the concurrent cache is proved as well (C03B_sync, hence the whole oracle: C03_sync_oracle): between two quiescent snapshots a fresh key, inserted once or several times before maintenance runs, keeps its latest value if that fits in the room the residents leave, and if every inserted value fits nothing unexpired is evicted (the accounted weight is that of the value the map holds now, so an earlier, heavier value never causes a rejection of the later one). Many threads, no capacity (model ConcS.lean, all interleavings): a step removes a map entry only if it is the invalidate of that key, or a maintenance run that finds it expired or hidden by the watermark; an inserted entry stays resident along every path that does not disturb it in one of these ways, whether or not its write op has been enqueued (ConcS_no_spurious_removal, ConcS_insert_retained, ConcS_insert_retained_path; ConcF_no_spurious_removal for the finest model, where the removing step is a single maintenance micro-step). The multi-threaded refill clause: real-thread component, stress only. The thread clause of the property is proved for the many-thread model: after ANY interleaving of ConcS that ends with nobody holding an operation, every single-threaded continuation satisfies the part-B oracle (ConcS_C03B_after_any_phase), and concretely the sequential refill — invalidate every resident, sync, then insert up to max_capacity fresh unit-weight keys with a sync after each — retains every one of them, with exact counters before and after (ConcS_C03_refill_retained, ConcS_C03_refill_counters). The room of part B is also judged from what the residents WEIGH, not only from the weight the cache has recorded for them (fitsC03SyncW: the configured weigher applied to the residents of the quiescent snapshot; round 9, seeded change C03i left a stale weight accounted and the oracle that trusted the record agreed with the implementation): on every trace on which the counters oracle holds the two forms coincide (fitsC03SyncW_of_C10), hence it accepts every model trace (C03B_sync_W, C03B_sync_W_noFreq from C03B_sync and C10_sync).",
         "level_note": "Theorem about Unsync.lean; tie = differential runs with capacity none/large/small + oracle on every implementation trace.",
     },
     "C04": {
@@ -189,21 +189,22 @@ PROPS = {
         "level_note": "Theorems about Unsync.lean; tie = white-box differential runs comparing the whole access-order deque after every operation.",
     },
     "C13": {
-        "lean_modules": ["MiniMoka.Props.C13", "MiniMoka.Props.C13Sync"],
-        "theorems": ["MiniMoka.Props.C13_sync_oracle", "MiniMoka.Props.C13_sync_admission", "MiniMoka.Props.C13_sync_has_room",
+        "lean_modules": ["MiniMoka.Props.C13", "MiniMoka.Props.C13Sync", "MiniMoka.Props.C13Dangling"],
+        "theorems": ["MiniMoka.Props.C13_sync_dangling", "MiniMoka.Props.C13_sync_dangling_state", "MiniMoka.Props.C13_sync_oracle", "MiniMoka.Props.C13_sync_admission", "MiniMoka.Props.C13_sync_has_room",
                      "MiniMoka.Props.C13_sync_scan_resistance", "MiniMoka.Props.C13_unsync_oracle", "MiniMoka.Props.C13_unsync_admission",
                      "MiniMoka.Props.C13_admit_closed_formula", "MiniMoka.Props.C13_unsync_oversized",
                      "MiniMoka.Props.C13_unsync_has_room", "MiniMoka.Props.C13_scan_resistance",
                      "MiniMoka.Props.C13_hot_key_admitted", "MiniMoka.Props.C13_zero_weight"],
         "components": [("unsync", ["scan", "growth", "mixed", "churn", "synced"], 30, 50),
                        ("sync", ["scan", "growth", "mixed", "churn", "synced"], 30, 50),
-                       ("unsync", ["oversize"], 10, 40), ("sync", ["oversize"], 10, 40)],
+                       ("unsync", ["oversize"], 10, 40), ("sync", ["oversize"], 10, 40),
+                       ("sync", ["dangling"], 12, 40), ("unsync", ["dangling"], 4, 40)],
         "projection": "full",
         "oracle": "C13",
         "audit_kinds": ["sketch_op", "map_write", "deque_op"],
         "corpus": ["C13"],
         "assumptions": COMMON_ASSUME,
-        "level_text": "Single-threaded cache, proved for every configuration, hash, weigher and reachable state: a new key is admitted iff it fits outright, or the victims (shortest LRU prefix covering its weight) exist and their summed popularity estimates are strictly below the candidate's (C13_unsync_admission with the closed formula C13_admit_closed_formula); a key heavier than the capacity is rejected without evicting anything (C13_unsync_oversized); with room nothing is evicted (C13_unsync_has_room); a never-read key cannot displace residents (C13_scan_resistance); a key read more often than all victims together is admitted (C13_hot_key_admitted); zero-weight edge cases (C13_zero_weight); the trace oracle that predicts every admission decision from the preceding snapshot and popularity reading accepts every model trace (C13_unsync_oracle). Concurrent cache driven by one thread (maintenance after the insert, as the property states): proved for every configuration, history and reachable quiescent state: the same closed formula decides admission, exactly the shortest LRU prefix leaves, a rejection changes neither the map nor the recency order (C13_sync_admission, C13_sync_has_room, C13_sync_scan_resistance), and the trace oracle accepts every model trace (C13_sync_oracle); the estimate read just before the insert is the one admission uses.",
+        "level_text": "Single-threaded cache, proved for every configuration, hash, weigher and reachable state: a new key is admitted iff it fits outright, or the victims (shortest LRU prefix covering its weight) exist and their summed popularity estimates are strictly below the candidate's (C13_unsync_admission with the closed formula C13_admit_closed_formula); a key heavier than the capacity is rejected without evicting anything (C13_unsync_oversized); with room nothing is evicted (C13_unsync_has_room); a never-read key cannot displace residents (C13_scan_resistance); a key read more often than all victims together is admitted (C13_hot_key_admitted); zero-weight edge cases (C13_zero_weight); the trace oracle that predicts every admission decision from the preceding snapshot and popularity reading accepts every model trace (C13_unsync_oracle). Concurrent cache driven by one thread (maintenance after the insert, as the property states): proved for every configuration, history and reachable quiescent state: the same closed formula decides admission, exactly the shortest LRU prefix leaves, a rejection changes neither the map nor the recency order (C13_sync_admission, C13_sync_has_room, C13_sync_scan_resistance), and the trace oracle accepts every model trace (C13_sync_oracle); the estimate read just before the insert is the one admission uses. An admission that meets a DANGLING node (round 9, seeded change C13i): in a quiescent calm full cache, insert(k) of a fresh key followed by invalidate(a) of a resident before the maintenance run that decides on k — a's node is still linked and its weight still accounted, but a is no resident any more: k is compared with the shortest LRU prefix of the OTHER residents whose weights reach its own, a's popularity does not count, and afterwards the cache holds the old residents minus a, minus the victims, plus k (admitted) or the old residents minus a (rejected), in both housekeeping regimes (C13_sync_dangling_state, and the window oracle admitDanglingC13 accepts every model trace: C13_sync_dangling; it judges every implementation trace of this check, new profile 'dangling').",
         "level_note": "Theorems about Unsync.lean with the sketch model of C14; tie = white-box differential runs with a popularity reading (hook) before every insert, estimates of all residents in every snapshot.",
     },
     "C14": {
@@ -232,8 +233,8 @@ PROPS = {
         "level_note": "Index computation mirrors the code's wrapping u64 arithmetic; counter updates are modelled arithmetically (w / 16^j % 16). Tie: facade component compares table (FNV digest of all words), size and sample size after every 97 increments and every estimate.",
     },
     "C17": {
-        "lean_modules": ["MiniMoka.Props.C17", "MiniMoka.Props.C03ASync"],
-        "theorems": ["MiniMoka.Props.C17_no_capacity_never_evicts_sync", "MiniMoka.Props.C17_no_capacity_never_evicts_sync_trace",
+        "lean_modules": ["MiniMoka.Props.C17", "MiniMoka.Props.C03ASync", "MiniMoka.Props.C10", "MiniMoka.Props.C10Sync"],
+        "theorems": ["MiniMoka.Props.C10_unsync", "MiniMoka.Props.C10_sync", "MiniMoka.Props.C17_no_capacity_never_evicts_sync", "MiniMoka.Props.C17_no_capacity_never_evicts_sync_trace",
                      "MiniMoka.Props.C17_policy_roundtrip", "MiniMoka.Props.C17_panic_iff",
                      "MiniMoka.Props.C17_new_eq_builder", "MiniMoka.Props.C17_initial_capacity_unobservable",
                      "MiniMoka.Props.C17_default_weight_one", "MiniMoka.Props.C17_no_capacity_never_evicts_unsync"],
@@ -242,11 +243,11 @@ PROPS = {
                        # every third case is built with an `initial_capacity` the model ignores
                        ("unsync", ["mixed", "growth", "scan"], 15, 50), ("sync", ["mixed", "growth", "scan"], 15, 50)],
         "projection": "full",
-        "oracle": "C17",
+        "oracle": "C17+C10",
         "audit_kinds": ["panic"],
         "corpus": ["C17"],
         "assumptions": COMMON_ASSUME + ["initial capacities large enough to abort in the allocator are outside the model (resource exhaustion)"],
-        "level_text": "Proved on the model of the builders, Cache::new and Policy: policy() returns exactly the knobs (C17_policy_roundtrip); build panics iff ttl or tti > 1000 years, boundary accepted, +1 ns rejected (C17_panic_iff); new(n) = builder().max_capacity(n).build(); initial_capacity occurs nowhere in the cache models; without a weigher every entry weighs 1; without max_capacity the single-threaded cache never evicts for size (C17_no_capacity_never_evicts_unsync). The concurrent-cache version is proved too (C17_no_capacity_never_evicts_sync: without max_capacity a maintenance run removes a map entry only if it is expired or hidden by the invalidate_all watermark, judged with every queued read applied; trace form = C03A_sync).",
+        "level_text": "A configured weigher is the one applied, with or without max_capacity: at every snapshot of the single-threaded cache and every quiescent one of the concurrent cache weighted_size is the sum of the configured weigher over the residents (C10_unsync, C10_sync; that oracle judges every trace of this check too, after the seeded change C17i made an unbounded cache with a weigher weigh every entry 1). Proved on the model of the builders, Cache::new and Policy: policy() returns exactly the knobs (C17_policy_roundtrip); build panics iff ttl or tti > 1000 years, boundary accepted, +1 ns rejected (C17_panic_iff); new(n) = builder().max_capacity(n).build(); initial_capacity occurs nowhere in the cache models; without a weigher every entry weighs 1; without max_capacity the single-threaded cache never evicts for size (C17_no_capacity_never_evicts_unsync). The concurrent-cache version is proved too (C17_no_capacity_never_evicts_sync: without max_capacity a maintenance run removes a map entry only if it is expired or hidden by the invalidate_all watermark, judged with every queued read applied; trace form = C03A_sync).",
         "level_note": "Tie: config component — every combination of builder knobs incl. boundary durations and both constructors on both caches, policy() compared with the model and judged by a direct oracle (panic iff > 1000 y, getters = knobs), followed by a short below-capacity history.",
     },
     "C09": {
@@ -360,6 +361,7 @@ AGREE_THEOREMS = {
     "Admit": ["MiniMoka.Agree.unsync_admitLoop_agrees", "MiniMoka.Agree.unsync_admitOrReject_agrees",
               "MiniMoka.Agree.sync_admitLoop_agrees", "MiniMoka.Agree.sync_admitOrReject_agrees"],
     "Housekeeper": ["MiniMoka.Agree.sync_shouldApply_agrees"],
+    "Counters": ["MiniMoka.Agree.unsync_invalidate_counters_agrees", "MiniMoka.Agree.unsync_invalidateAll_counters_agrees", "MiniMoka.Agree.unsync_invalidateKeys_agrees", "MiniMoka.Agree.unsync_invalidateEntriesIf_counters_agrees", "MiniMoka.Agree.unsync_handleInsert_counters_agrees", "MiniMoka.Agree.unsync_removeVictims_agrees", "MiniMoka.Agree.unsync_admitOrReject_counters_agrees", "MiniMoka.Agree.unsync_handleUpdate_counters_agrees", "MiniMoka.Agree.unsync_removeExpiredWo_agrees", "MiniMoka.Agree.unsync_removeExpiredAo_agrees", "MiniMoka.Agree.unsync_evictExpired_counters_agrees", "MiniMoka.Agree.unsync_evictLruLoop_counters_agrees", "MiniMoka.Agree.unsync_evictLru_counters_agrees", "MiniMoka.Agree.sync_subCounters_agrees", "MiniMoka.Agree.sync_addCounters_agrees", "MiniMoka.Agree.sync_applyUpdate_counters_agrees", "MiniMoka.Agree.sync_handleAdmit_counters_agrees", "MiniMoka.Agree.sync_handleRemove_counters_agrees", "MiniMoka.Agree.sync_handleRemove_deq_counters_agrees", "MiniMoka.Agree.sync_evictLruLoop_counters_agrees"],
     "Enable": ["MiniMoka.Agree.hasExpiry_agrees", "MiniMoka.Agree.unsync_evictExpiredIfNeeded_agrees",
                "MiniMoka.Agree.sync_syncRun_agrees", "MiniMoka.Agree.sync_writeOrder_agrees",
                "MiniMoka.Agree.default_weight_agrees"],
@@ -380,8 +382,8 @@ AGREE_THEOREMS = {
                "MiniMoka.Agree.tooLong_agrees_tti"],
 }
 
-LOGIC = {"C01": ["Expiry", "Lookup", "Identity"], "C02": ["Identity"], "C03": ["Capacity", "Expiry", "Lookup"], "C04": ["Capacity", "Loops"], "C05": ["Expiry", "Lookup", "Enable"], "C06": ["Expiry", "Lookup", "Enable"],
-         "C07": ["Expiry", "Lookup"], "C08": ["SketchArith", "SketchBits", "Identity"], "C10": ["Identity"], "C11": ["Identity"], "C09": ["Housekeeper", "Loops"], "C12": ["Capacity", "Admit", "Loops"],
+LOGIC = {"C01": ["Expiry", "Lookup", "Identity"], "C02": ["Identity"], "C03": ["Capacity", "Expiry", "Lookup", "Counters"], "C04": ["Capacity", "Loops", "Counters"], "C05": ["Expiry", "Lookup", "Enable"], "C06": ["Expiry", "Lookup", "Enable"],
+         "C07": ["Expiry", "Lookup"], "C08": ["SketchArith", "SketchBits", "Identity"], "C10": ["Identity", "Counters"], "C11": ["Identity"], "C09": ["Housekeeper", "Loops"], "C12": ["Capacity", "Admit", "Loops"],
          "C13": ["Capacity", "Admit", "SketchBits"], "C14": ["SketchArith", "SketchBits"], "C16": ["Expiry", "Lookup"], "C17": ["Config", "Capacity", "Enable"]}
 for _k, _v in LOGIC.items():
     PROPS[_k]["logic"] = _v
@@ -439,6 +441,10 @@ PROPS["C16"]["components"] = list(PROPS["C16"]["components"]) + [("hammer", ["re
 for _k in ("C01", "C03", "C06", "C07"):
     PROPS[_k]["components"] = list(PROPS[_k]["components"]) + [("sync", ["lateread"], 20, 30), ("unsync", ["lateread"], 8, 30)]
 # the sketch of a weighted cache over more than one aging period / past its first sizing
+# round 9: a key written twice with different weights before its first write is applied, then a fill
+# with fresh unit keys up to the real room (seeded change C03i)
+for _k in ("C03", "C04", "C10"):
+    PROPS[_k]["components"] = list(PROPS[_k]["components"]) + [("sync", ["overfill"], 10, 40), ("unsync", ["overfill"], 4, 40)]
 PROPS["C13"]["components"] = list(PROPS["C13"]["components"]) + [("unsync", ["regrow"], 8, 40), ("sync", ["regrow"], 8, 40)]
 PROPS["C14"]["components"] = list(PROPS["C14"]["components"]) + [("unsync", ["regrow", "aging"], 4, 40), ("sync", ["regrow", "aging"], 4, 40)]
 PROPS["C17"]["components"] = list(PROPS["C17"]["components"]) + [("unsync", ["aging"], 6, 40), ("sync", ["aging"], 6, 40)]
